@@ -19,7 +19,7 @@ def chunked(items, n):
     return [items[i : i + size] for i in range(0, len(items), size)]
 
 
-def run(fn, jobs, procs=None, env=None, chunks_per_proc=4, hashseed=None):
+def run(fn, jobs, procs=None, env=None, chunks_per_proc=4, hashseed=None, fresh_each=False):
     """Apply fn (a module-level function taking a list of jobs and returning
     a list of results) to the jobs, split over fresh processes."""
     procs = procs or min(16, os.cpu_count() or 4)
@@ -33,8 +33,9 @@ def run(fn, jobs, procs=None, env=None, chunks_per_proc=4, hashseed=None):
         os.environ["PYTHONHASHSEED"] = str(hashseed)
     try:
         ctx = mp.get_context("spawn")
-        parts = chunked(jobs, procs * chunks_per_proc)
-        with ctx.Pool(min(procs, len(parts)), initializer=_init, initargs=(env,)) as pool:
+        # fresh_each: every job runs as the very first thing a new interpreter does
+        parts = [[j] for j in jobs] if fresh_each else chunked(jobs, procs * chunks_per_proc)
+        with ctx.Pool(min(procs, len(parts)), initializer=_init, initargs=(env,), maxtasksperchild=(1 if fresh_each else None)) as pool:
             out = []
             for res in pool.imap(fn, parts):
                 out.extend(res)
